@@ -166,6 +166,9 @@ func (run *c18Run) startResolvers(wg *sync.WaitGroup, directed bool) {
 	}
 	scn := run.scn
 	groups := vrep.Pick(5, 8)
+	if scn.Front != "" && scn.FrontMs == 0 {
+		groups = 2 // the store never comes up: every group only sits out the dial time-out
+	}
 	for g := 0; g < 2; g++ {
 		wg.Add(1)
 		go func(g int) {
